@@ -1034,3 +1034,15 @@ def mon_c18(scripts, stats):
         d = obs.get('DET', [''])[0]
         if d != 'same':
             yield sc, n, 'C18: replay (%s) of the same history differs from the first execution: %s' % (a.get('mode'), d[:300])
+
+
+# ---------------- request immutability (C18, C09) ----------------
+def mon_request_untouched(scripts, stats):
+    """a handler must not write into the byte slices of its request: the same decoded request value may be executed again
+    (simulation, a retry on another instance) and must then behave the same"""
+    for sc, n, inp, cmd, ty, a, pre, obs in walk(scripts):
+        if cmd not in ('TX', 'SIM'):
+            continue
+        stats['mon_request_checked'] += 1
+        if 'MUT' in obs:
+            yield sc, n, 'C18: %s wrote into its own request, and the same request value executed again from the same state behaves differently (%s)' % (inp.split(' ')[2], obs['MUT'][0][:120])
